@@ -81,7 +81,9 @@ def configurations():
             "fs_beside_auth", "eph_beside_auth",
             # earlier on this TorConfig another endpoint with the same caller-held key tried to listen and Tor refused
             # the service (that listener was closed again): the application tries once more
-            "eph2key_retry"]
+            "eph2key_retry",
+            # authenticated filesystem services (faults up to Tor's answer to the creation command only)
+            "fsauth_basic", "fsauth_stealth"]
 
 
 INVALID = ["eph_stealth", "eph_with_dir", "fs_with_key", "fs_single", "both_auth",
@@ -181,6 +183,12 @@ class Run(object):
             self.tmp = tempfile.mkdtemp(prefix="verif-hs-")
             self.public = 443
             return TCPHiddenServiceEndpoint(r, c, 443, hidden_service_dir=self.tmp, version=3)
+        if cfg in ("fsauth_basic", "fsauth_stealth"):
+            # an authenticated filesystem service (only driven up to Tor's answer to the SETCONF: matching its uploads
+            # needs per-client hostname files)
+            self.tmp = tempfile.mkdtemp(prefix="verif-hs-")
+            auth = AuthBasic(["alice", "bob"]) if cfg == "fsauth_basic" else AuthStealth(["alice", "bob"])
+            return TCPHiddenServiceEndpoint(r, c, 80, hidden_service_dir=self.tmp, auth=auth, version=2)
         if cfg == "fsimplicit":
             ep = TCPHiddenServiceEndpoint(r, c, 80, ephemeral=False, version=3)
             self.tmp = ep.hidden_service_dir
